@@ -14,7 +14,9 @@
                    of EVERY activation allocates on the stack of the running
                    thread) whose address is taken with `stack_addr`, and the code
                    generator declares no writable (or thread-local) data object
-                   in the JIT module at all;
+                   in the JIT module at all; on the host side, the return
+                   buffer handed to the compiled function is a local of
+                   `RotoFunc::invoke`;
   * `obs`          a machine with any number of activations (calls on any
                    threads, recursive re-entries) that write and read their slot
                    variables in any interleaving, the address of a slot being
@@ -56,6 +58,15 @@ structure DataObj where
   tls : Option Bool
   deriving DecidableEq, Repr
 
+/-- one body of `RotoFunc::invoke` (the host side of a call) -/
+structure HostInvoke where
+  /-- the return pointer handed to the compiled function is `as_mut_ptr()` of a
+  `let`-bound `MaybeUninit::uninit()` local of the body -/
+  retIsLocal : Bool
+  /-- no `static`, `thread_local`, leaked or raw allocation in the body -/
+  clean : Bool
+  deriving DecidableEq, Repr
+
 structure Facts where
   /-- arms of the match over `ValueOrSlot` in the loop over the item's variables -/
   slotArms : List SlotArm
@@ -71,6 +82,8 @@ structure Facts where
   instrStorage : List (List StOp)
   /-- every data object declared under `src/codegen/` -/
   dataObjects : List DataObj
+  /-- bodies of `fn invoke` in `src/codegen/check.rs` -/
+  hostInvokes : List HostInvoke
   deriving Repr
 
 /-- where the block of a slot variable lives -/
@@ -106,6 +119,8 @@ def slotsInFrame (f : Facts) : Bool :=
   && f.entrySlotsAreStackSlots
   && f.instrStorage.all (fun l => !l.contains .stackSlotOther)
   && f.dataObjects.all dataOk
+  && !f.hostInvokes.isEmpty
+  && f.hostInvokes.all (fun h => h.retIsLocal && h.clean)
 
 /-! ### the machine -/
 
@@ -152,6 +167,7 @@ def baseFacts : Facts where
   entrySlotsAreStackSlots := true
   instrStorage := [[.stackSlot, .dataObject, .dataAddr, .stackAddr], [.dataObject, .dataAddr]]
   dataObjects := [{ writable := some false, tls := some false }, { writable := some false, tls := some false }]
+  hostInvokes := [{ retIsLocal := true, clean := true }]
 
 /-- a code generator that backs slot variables above some size with a writable,
 zero-initialised data object of the module (recorded witness of the refutation) -/
